@@ -12,6 +12,7 @@ case "$name" in
   C04-makefield|C16-parsefield|C16-unmarshal-target) pkg=cdr/asn ;;
   C06-grant-limit|C10-reference-collision|C09-notify-recharge|C09-sequence-number|C11-requested-unit) pkg=internal/sbi/processor ;;
   C09-cgf-conn) pkg=internal/cgf ;;
+  C11-plmn-utf8) pkg=cdr/cdrConvert ;;
   C09-new-ue) pkg=internal/context ;;
   C12-recharge-rating-group) pkg=internal/sbi ;;
   C17-dictionary) pkg=pkg/rf ;;
